@@ -193,6 +193,8 @@ pub struct Driver {
     pays: usize,
     frozen: bool,
     freeze_at: usize,
+    /// lifecycles (task names) that issued a call for the frozen hash: their hash-less calls (getinfo) freeze too
+    frozen_lcs: std::collections::BTreeSet<u32>,
     steps_done: usize,
     finished: bool,
     probe_settled: bool,
@@ -329,6 +331,7 @@ impl Driver {
             pays: 0,
             frozen: false,
             freeze_at,
+            frozen_lcs: Default::default(),
             steps_done: 0,
             finished: false,
             probe_settled: false,
@@ -711,6 +714,13 @@ impl Driver {
             s.calls.values().map(|c| (c.id, c.st, c.abs.clone(), c.method.clone(), c.lc)).collect()
         });
         let nparts = sim::with(|s| s.parts.len());
+        if !r.freeze.is_empty() {
+            for (_, _, abs, _, lc) in &snapshot {
+                if *lc != 0 && abs["hash"].as_str() == Some(r.freeze.as_str()) {
+                    self.frozen_lcs.insert(*lc);
+                }
+            }
+        }
         for (id, st, abs, method, lc) in snapshot {
             let hash = abs["hash"].as_str().unwrap_or("").to_string();
             // a slow lifecycle: its datastore writes are served about 40 times less often
@@ -728,7 +738,7 @@ impl Driver {
                 continue;
             }
             let _ = w10;
-            if !frozen_hash.is_empty() && hash == frozen_hash {
+            if !frozen_hash.is_empty() && (hash == frozen_hash || (hash.is_empty() && self.frozen_lcs.contains(&lc))) {
                 continue;
             }
             match st {
